@@ -159,12 +159,12 @@ def aperture(draw, shape, wavelength, max_waves=3.0, min_samples=3):
 
 
 @st.composite
-def partition(draw, support, kmax=5):
+def partition(draw, support, kmax=5, kmin=1):
     """Split a boolean support into 1..kmax non-empty segments.  Returns a label
     map (0 = outside, 1..k) and the partition kind."""
     m, n = support.shape
     idx = np.argwhere(support)
-    k = draw(st.integers(1, min(kmax, len(idx))))
+    k = draw(st.integers(min(kmin, kmax, len(idx)), min(kmax, len(idx))))
     kind = draw(st.sampled_from(["stripes_r", "stripes_c", "voronoi", "interleave", "random"]))
     labels = np.zeros(support.shape, dtype=int)
     if kind == "stripes_r":
